@@ -333,6 +333,11 @@ def oracle_cbs(ctx, n, b, canon, case):
         r = int(canon.split()[1])
         if not (2 <= r <= b):
             ctx.oracle_fail("FlowModel.check_batch_size:range", f"returned {r} for batch_size={b}, len={n}", case)
+        if n % r == 1:
+            # batch normalisation (on by default in the importance sampler's flows) has no variance for one sample: the
+            # flow collapses and ImportanceFlowProposal.draw never returns (finding F57, fixed)
+            ctx.oracle_fail("FlowModel.check_batch_size:final-batch-of-one", f"batch size {r} accepted for {n} training samples "
+                            f"(requested {b}): the final batch holds a single sample", case)
 
 
 # ------------------------------------------------------------------------------------------------
